@@ -254,8 +254,8 @@ class K:
 
 
 HEADER = """/-
-GENERATED by harness/py2lean.py from {files} (sha256 {sha}).  Do not edit.
-Statement-by-statement translations of integer loop kernels; arrays are `Array Int`, indices `Int` with Python wrap-around.
+GENERATED by harness/py2lean.py (fixed prelude).  Do not edit.
+Statement-by-statement translations of integer loop kernels (Hdc/Gen/K*.lean); arrays are `Array Int`, indices `Int` with Python wrap-around.
 -/
 namespace Hdc.Gen.Kernels
 
@@ -287,30 +287,39 @@ def pySlice (a : Array Int) (lo hi : Int) : Array Int :=
 """
 
 
+def write_if_changed(path, text):
+    path.parent.mkdir(parents=True, exist_ok=True)
+    if not path.exists() or path.read_text() != text:
+        tmp = path.with_suffix(".tmp")
+        tmp.write_text(text)
+        tmp.replace(path)
+        print(f"py2lean: wrote {path}")
+
+
 def main():
-    texts, files = [], []
-    try:
-        for cfg in KERNELS:
+    """One generated module per kernel (Hdc/Gen/K<Name>.lean) on top of the fixed prelude Hdc/Gen/KernelsBase.lean, so that a
+    change to one kernel's source touches only the theorems about that kernel.  A kernel that cannot be translated is reported
+    as `FAILED <module>: reason` (exit 1); its previous output is left in place (stale, and treated as broken by the checks)."""
+    gen = OUT.parent
+    write_if_changed(gen / "KernelsBase.lean", HEADER + "end Hdc.Gen.Kernels\n")
+    rc = 0
+    for cfg in KERNELS:
+        module = "K" + "".join(w.capitalize() for w in cfg["name"].split("_"))
+        try:
             src = (REPO / cfg["file"]).read_text()
-            files.append(cfg["file"])
             mod = ast.parse(src)
             fn = next(n for n in ast.walk(mod) if isinstance(n, ast.FunctionDef) and n.name == cfg["func"])
             k = K(cfg, fn)
             body = k.run()
             sig, rty = k.signature()
-            texts.append(f"/-- `{cfg['file']}::{cfg['func']}` -/\ndef {cfg['name']} {sig} : {rty} := Id.run do\n{body}\n")
-    except (Unsupported, StopIteration, KeyError, IndexError, AttributeError) as e:
-        print(f"py2lean: unsupported construct in {cfg['func']}: {e!r}", file=sys.stderr)
-        return 1
-    allsrc = "".join((REPO / f).read_text() for f in sorted(set(files)))
-    text = HEADER.format(files=", ".join(sorted(set(files))), sha=hashlib.sha256(allsrc.encode()).hexdigest()[:16]) + "\n".join(texts) + "\nend Hdc.Gen.Kernels\n"
-    OUT.parent.mkdir(parents=True, exist_ok=True)
-    if not OUT.exists() or OUT.read_text() != text:
-        tmp = OUT.with_suffix(".tmp")
-        tmp.write_text(text)
-        tmp.replace(OUT)
-        print(f"py2lean: wrote {OUT}")
-    return 0
+            sha = hashlib.sha256(ast.get_source_segment(src, fn).encode()).hexdigest()[:16]
+            text = (f"import Hdc.Gen.KernelsBase\n/-\nGENERATED by harness/py2lean.py from {cfg['file']}::{cfg['func']} (sha256 of the function source {sha}).  Do not edit.\n-/\n"
+                    f"namespace Hdc.Gen.Kernels\n\n/-- `{cfg['file']}::{cfg['func']}` -/\ndef {cfg['name']} {sig} : {rty} := Id.run do\n{body}\n\nend Hdc.Gen.Kernels\n")
+            write_if_changed(gen / f"{module}.lean", text)
+        except (Unsupported, StopIteration, KeyError, IndexError, AttributeError, OSError, SyntaxError) as e:
+            print(f"FAILED Hdc.Gen.{module}: unsupported construct in {cfg['func']}: {e!r}")
+            rc = 1
+    return rc
 
 
 if __name__ == "__main__":
